@@ -212,19 +212,47 @@ Fixpoint drun_ok (ret : Z) (ps : list (gmap string gstate)) (h : list (Z * nat *
       end
   end.
 
+(* ---------- KMember: membership histories on a real memberlist (in-memory transport, virtual time) ----------
+   row = (ground-truth join/leave events so far, sender, oversized?, the sender's Members() view at send time,
+          the running instances that hold the update a few seconds later).
+   The model's receiver set (members by NAME, minus self) restricted to what the sender's memberlist lists must
+   have received the update. *)
+Definition smem (n : string) (l : list string) : bool := existsb (String.eqb n) l.
+Definition mrow : Type := list mev * string * bool * list string * list string.
+Definition mrow_ok (r : mrow) : bool :=
+  let '(evs, sender, _, members, got) := r in
+  smem sender got &&
+  forallb (fun n => negb (smem n members) || smem n got) (oversize_receivers sender evs).
+
+(* ---------- KFrame: what N goroutines wrote to one pooled TLS connection through tlsConn.writePacket ----------
+   chunks = the plaintext handed to the connection, one element per conn.Write, in lock order; payloads = the
+   memberlist packets given to writePacket; received = packets the reader decoded intact. *)
+Definition is_suffix (p f : list N) : bool := beq (drop (length f - length p) f) p.
+Definition frames_ok (chunks payloads : list (list N)) (received : nat) : bool :=
+  match parse_frames (length payloads) (concat chunks) with
+  | Some l => beq (length l) received && beq (length l) (length payloads) &&
+              forallb (fun f => existsb (fun p => is_suffix p f) payloads) l
+  | None => false
+  end.
+
 (* ---------- cases ---------- *)
 Inductive case :=
 | KChan (key : string) (marshal_ok : bool) (h : list (cop string * cobs))
 | KWire (parts : list (string * string * string)) (full : string) (cap : Z)
-| KDeleg (c : dcase).
+| KDeleg (c : dcase)
+| KMember (rows : list mrow)
+| KFrame (chunks payloads : list (list N)) (received : nat).
 
-Inductive shown := ShChan (l : list cobs) | ShWire (l : list string) (cap : Z) | ShDeleg (l : list dout).
+Inductive shown := ShChan (l : list cobs) | ShWire (l : list string) (cap : Z) | ShDeleg (l : list dout)
+| ShMember (l : list (list string)) | ShFrame (l : option (list (list N))).
 
 Definition show_case (c : case) : shown :=
   match c with
   | KChan key ok h => ShChan (chan_model key ok (map fst h))
   | KWire parts _ _ => ShWire (map (fun '(k, d, _) => enc_part k d) parts ++ [enc_full (map fst parts)]) oversize_queue_cap
   | KDeleg d => ShDeleg (deleg_model d)
+  | KMember rows => ShMember (map (fun '(evs, sender, _, _, _) => oversize_receivers sender evs) rows)
+  | KFrame chunks payloads _ => ShFrame (parse_frames (length payloads) (concat chunks))
   end.
 
 Fixpoint all2 {A C} (f : A -> C -> bool) (l1 : list A) (l2 : list C) : bool :=
@@ -241,6 +269,8 @@ Definition check_case (c : case) : bool :=
       forallb (fun '(k, d, w) => String.eqb (enc_part k d) w && (slen w =? part_size (slen k) (slen d))) parts &&
       String.eqb (enc_full (map fst parts)) full && (cap =? oversize_queue_cap)
   | KDeleg d => beq (deleg_model d) (map snd (d_hist d))
+  | KMember rows => forallb mrow_ok rows
+  | KFrame chunks payloads received => frames_ok chunks payloads received
   end.
 
 (* executable form of the property on the model run *)
@@ -259,4 +289,6 @@ Definition prop_case (c : case) : bool :=
   | KChan key ok h => chan_prop key ok (map fst h)
   | KWire _ _ _ => true
   | KDeleg d => drun_ok (d_ret d) (map init_peer (d_peers d)) (map fst (d_hist d))
+  | KMember rows => forallb (fun '(evs, sender, _, _, _) => smem sender (map fst (members_after evs))) rows
+  | KFrame chunks _ _ => match parse_frames (length chunks) (concat chunks) with Some _ => true | None => false end
   end.
